@@ -42,8 +42,15 @@ func Gen(f Focus, thorough bool) *rapid.Generator[Script] {
 		if withTO {
 			if s.Kind == KindV1Join {
 				s.Timeout = 10_000_000 * d * pick(t, "k", int64(1), 1, 3)
+				if d > 1 && rapid.IntRange(0, 3).Draw(t, "odd1") == 0 {
+					s.Timeout += rapid.Int64Range(1, d-1).Draw(t, "oddr1")
+				}
 			} else {
 				s.Timeout = d * pick(t, "k", int64(1), 7, 7, 1000)
+				if d > 1 && rapid.IntRange(0, 3).Draw(t, "odd") == 0 {
+					// not a multiple of the divider: the tick period is floor(Timeout/d)
+					s.Timeout += rapid.Int64Range(1, d-1).Draw(t, "oddr")
+				}
 			}
 			unit = s.Timeout
 		}
